@@ -1798,6 +1798,13 @@ class Exec:
         if fn == "contiguous":
             v = self.ev(n.args[0])
             return self.mk_bool(self.contig_term(v.t))
+        if fn == "unchanged":
+            # contents of the array equal its contents on entry to the innermost enclosing loop
+            v = self.ev(n.args[0])
+            key = getattr(self, "cur_loop", None)
+            eh = self.loop_entry[key][1]
+            a = v.t if v.k == "arr" else v.t[0]
+            return self.mk_bool(self.heap[a.id] == eh[a.id])
         if fn == "same_array":
             a, b = self.ev(n.args[0]), self.ev(n.args[1])
             ta = self.heap[a.t.id] if a.k == "arr" else None
@@ -1943,7 +1950,7 @@ _orig_ev_call = Exec.ev_Call
 
 def _ev_call_with_spec(self, n):
     fn = self.fname(n.func)
-    if fn is not None and (self.spec_mode or fn in ("shape", "extent", "old", "implies", "iff", "ite", "contiguous", "real", "isnan", "rowsum")):
+    if fn is not None and (self.spec_mode or fn in ("shape", "extent", "old", "implies", "iff", "ite", "contiguous", "real", "isnan", "rowsum", "unchanged")):
         r = self.spec_call(fn, n)
         if r is not None:
             return r
